@@ -17,15 +17,29 @@ from machines import bspgen as G
 from srctools.bsp import BSP
 
 
-def main(n=160) -> int:
+def main(n=160, extra=60) -> int:
+    """The first n files (standard v19-v21 layouts) are never regenerated once they exist; `extra` more files cover
+    the INFRA (22), Chaos (25) and VitaminSource (43) layouts."""
     d = os.path.join(VERIF, 'corpus', 'bsp')
     os.makedirs(d, exist_ok=True)
     index = []
+    ipath = os.path.join(d, 'INDEX.json')
+    if os.path.exists(ipath):
+        index = [x for x in json.load(open(ipath)) if x['version'] in (19, 20, 21)]
+    base_done = len(index) >= n
     i = -1
-    while len(index) < n:
+    total = n + extra
+    while len(index) < total:
         i += 1
-        r = Rng(0xC0DE0000 + i)
-        version = r.pick([19, 20, 21, 21])
+        if not base_done and len(index) >= n:
+            base_done = True
+            i = 0
+        if base_done:
+            r = Rng(0xC0DF0000 + i)
+            version = r.pick([22, 25, 25, 43, 43])
+        else:
+            r = Rng(0xC0DE0000 + i)
+            version = r.pick([19, 20, 21, 21])
         l4d2 = version == 21 and r.chance(0.3)
         groups = [g for g in G.ALL_GROUPS if r.chance(0.6)]
         fs = simfs.SimFS()
@@ -45,13 +59,13 @@ def main(n=160) -> int:
         blob = fs.get(path)
         if len(blob) > 24000:
             continue        # keep the committed corpus small (huge visibility tables are covered by generated inputs)
-        name = f'gen{i:03}_v{version}{"_l4d2" if l4d2 else ""}.bsp'
+        name = f'{"var" if base_done else "gen"}{i:03}_v{version}{"_l4d2" if l4d2 else ""}.bsp'
         with open(os.path.join(d, name), 'wb') as f:
             f.write(blob)
         index.append({'file': name, 'version': version, 'l4d2': l4d2, 'groups': groups, 'bytes': len(blob)})
     with open(os.path.join(d, 'INDEX.json'), 'w') as f:
         json.dump(index, f, indent=0)
-    print(f'{n} files, {sum(x["bytes"] for x in index)} bytes')
+    print(f'{len(index)} files, {sum(x["bytes"] for x in index)} bytes')
     return 0
 
 
